@@ -32,6 +32,17 @@ def riseTable (levels measured simulated : List α) : List (α × α × α) :=
 def recessionTable (levels measured simulated : List α) : List (α × α × α) :=
   (List.zip levels (List.zip measured simulated)).reverse
 
+/-! unit conversions of `simulate recession` (simulate_recession.py) -/
+
+/-- PEATCLSM transmissivity comes in m²/s, the recession integrand wants m²/d: `T(z) * 24 * 3600` -/
+def perDay (T : α → α) (z : α) : α := Num.mul (Num.mul (T z) (Num.ofInt 24)) (Num.ofInt 3600)
+
+/-- site curvature m/km² → 1/km: `curvature_m_km2 * 1e-3` (the literal `1e-3` is the correctly rounded quotient 1/1000) -/
+def curvatureKm (c : α) : α := Num.mul c (Num.div (Num.ofInt 1) (Num.ofInt 1000))
+
+/-- the levels of the measured curve are read in cm and handed on in mm: `avg_zeta_cm * 10` -/
+def levelMm (zcm : α) : α := Num.mul zcm (Num.ofInt 10)
+
 def recessionVector (simulated : List α) : List α := simulated.reverse
 
 end Spowtd
